@@ -1,201 +1,147 @@
 import Proofs.C16EventsAgreeRefresh
-/-! helper lemmas: after a refresh a host with a new id is in the fallback policy's lists, PROVIDED its
-connect address is used neither by a host of the prior ring nor by another accepted reported host
-(the policy lists are keyed by connect address: see the counterexample in Proofs/C16Events.lean) -/
+/-! helper lemmas: after a refresh every host object that is NEW in the ring (a new node, or the new object
+of a node whose address changed) is in the policy's host lists — provided no OTHER accepted reported host
+has its connect address (the policy lists are keyed by connect address, they cannot hold two hosts on one).
+Since refreshRing removes what is gone before it adds anything (repair of KF-C16-4) the previous owner of
+the address — a replaced node, a node that moved away in the same report — is no obstacle any more. -/
 namespace C16
 open Ring ClusterView
 
-/-- as `refreshV_preserves`, knowing that every host added is an accepted reported host and every host
-removed is an object of the prior ring -/
-theorem stepV_preserves' (env : Env) (r0 : Ring.Ring) (reported : List RHost) (P : View → Prop)
-    (hadd : ∀ v h, P v → lookup v.ring.byId h.id = none → h ∈ reported → env.filter h = false → P (View.addNew env v h))
-    (hrm : ∀ v h, P v → h ∈ r0.allHosts → P (v.removeHost env h))
-    (st : RState) (h : RHost) (hh : h ∈ reported) (hp : P st.v) (hsub : ∀ e ∈ st.prev, e ∈ r0.byId) :
-    P (refreshStepV env st h).1.v ∧ (∀ e ∈ (refreshStepV env st h).1.prev, e ∈ r0.byId) := by
-  unfold refreshStepV
-  cases hf : env.filter h with
-  | true => simp only [↓reduceIte]; exact ⟨hp, hsub⟩
-  | false =>
-    simp only [Bool.false_eq_true, ↓reduceIte]
-    have hsub' : ∀ e ∈ erase st.prev h.id, e ∈ r0.byId := fun e he => hsub e ((mem_erase _ _ _).mp he).1
-    cases hl : lookup st.v.ring.byId h.id with
-    | none =>
-      have := hadd st.v h hp hl hh hf
-      unfold View.addNew at this
-      rw [addIfMissing_of_none _ h hl] at this ⊢
-      exact ⟨this, hsub'⟩
-    | some e0 =>
-      rw [addIfMissing_of_some _ h e0 hl]
-      dsimp only
-      cases hlp : lookup st.prev h.id with
-      | none => exact ⟨hp, hsub⟩
-      | some ex =>
-        dsimp only
-        by_cases hcond : (h.caddr == ex.caddr && h.addr == ex.addr) = true
-        · rw [if_pos hcond]; exact ⟨hp, hsub'⟩
-        · rw [if_neg hcond]
-          have hex : ex ∈ r0.allHosts :=
-            List.mem_map.mpr ⟨(h.id, ex), hsub _ (lookup_some_mem _ _ _ hlp), rfl⟩
-          have hp2 := hrm st.v ex hp hex
-          cases hl2 : lookup (st.v.removeHost env ex).ring.byId h.id with
-          | none =>
-            have := hadd _ h hp2 hl2 hh hf
-            unfold View.addNew at this
-            rw [addIfMissing_of_none _ h hl2] at this ⊢
-            exact ⟨this, hsub'⟩
-          | some e3 =>
-            rw [addIfMissing_of_some _ h e3 hl2]
-            exact ⟨hp2, hsub⟩
+/-- no other accepted reported host has the connect address of `s` -/
+def OwnConn (env : Env) (reported : List RHost) (s : RHost) : Prop :=
+  ∀ y ∈ accepted env reported, y ≠ s → cAddr y ≠ cAddr s
 
-theorem loopV_preserves' (env : Env) (r0 : Ring.Ring) (reported : List RHost) (P : View → Prop)
-    (hadd : ∀ v h, P v → lookup v.ring.byId h.id = none → h ∈ reported → env.filter h = false → P (View.addNew env v h))
-    (hrm : ∀ v h, P v → h ∈ r0.allHosts → P (v.removeHost env h)) (l : List RHost) (hl : ∀ h ∈ l, h ∈ reported) :
-    ∀ (st : RState), P st.v → (∀ e ∈ st.prev, e ∈ r0.byId) →
-      P (refreshLoopV env l st).1.v ∧ (∀ e ∈ (refreshLoopV env l st).1.prev, e ∈ r0.byId) := by
+instance (env : Env) (reported : List RHost) (s : RHost) : Decidable (OwnConn env reported s) := by
+  unfold OwnConn; infer_instance
+
+/-- `s` is in the policy's lists: in the token-aware list when the policy is token aware, and in the fallback's lists -/
+def InPolicy (env : Env) (p : Policy) (s : RHost) : Prop := (env.tokenAware = true → s ∈ p.ta) ∧ (s ∈ p.loc ∨ s ∈ p.rem)
+
+instance (env : Env) (p : Policy) (s : RHost) : Decidable (InPolicy env p s) := by unfold InPolicy; infer_instance
+
+theorem mem_cowAdd_self (l : List RHost) (h : RHost) (hl : ∀ y ∈ l, cAddr y ≠ cAddr h) : h ∈ cowAdd l h :=
+  (mem_cowAdd l h h).mpr (Or.inr ⟨rfl, hl⟩)
+
+/-- every host of the ring has the id and connect address of an accepted reported host -/
+def MatchedC (acc : List RHost) (r : Ring.Ring) : Prop := ∀ e ∈ r.byId, ∃ h ∈ acc, h.id = e.1 ∧ cAddr h = cAddr e.2
+
+theorem inPolicy_add_keep (env : Env) (p : Policy) (h s : RHost) (hs : InPolicy env p s) : InPolicy env (p.add env h) s := by
+  refine ⟨fun ht => ?_, ?_⟩
+  · rw [add_ta, ht]; exact (mem_cowAdd _ _ _).mpr (Or.inl (hs.1 ht))
+  · rw [add_loc, add_rem]
+    rcases hs.2 with h1 | h1
+    · left; split
+      · exact (mem_cowAdd _ _ _).mpr (Or.inl h1)
+      · exact h1
+    · right; split
+      · exact h1
+      · exact (mem_cowAdd _ _ _).mpr (Or.inl h1)
+
+theorem inPolicy_add_self (env : Env) (p : Policy) (h : RHost) (hfree : ∀ y ∈ p.all, cAddr y ≠ cAddr h) :
+    InPolicy env (p.add env h) h := by
+  have hta : ∀ y ∈ p.ta, cAddr y ≠ cAddr h := fun y hy => hfree y ((mem_all _ _).mpr (Or.inl hy))
+  have hloc : ∀ y ∈ p.loc, cAddr y ≠ cAddr h := fun y hy => hfree y ((mem_all _ _).mpr (Or.inr (Or.inl hy)))
+  have hrem : ∀ y ∈ p.rem, cAddr y ≠ cAddr h := fun y hy => hfree y ((mem_all _ _).mpr (Or.inr (Or.inr hy)))
+  refine ⟨fun ht => ?_, ?_⟩
+  · rw [add_ta, ht]; exact mem_cowAdd_self _ _ hta
+  · rw [add_loc, add_rem]
+    cases hl : env.isLocal h with
+    | true => left; exact mem_cowAdd_self _ _ hloc
+    | false => right; exact mem_cowAdd_self _ _ hrem
+
+structure NewPol (env : Env) (reported : List RHost) (w1 w : View) : Prop where
+  agree : Agree env w
+  matched : MatchedC (accepted env reported) w.ring
+  inpol : ∀ s, lookup w.ring.byId s.id = some s → lookup w1.ring.byId s.id = none → OwnConn env reported s →
+    InPolicy env w.pol s
+
+theorem addAllV_newPol (env : Env) (reported : List RHost) (w1 : View) (l : List RHost)
+    (hl : ∀ h ∈ l, h ∈ accepted env reported) : ∀ (w : View), NewPol env reported w1 w →
+      NewPol env reported w1 (l.foldl (addStepV env) w) := by
   induction l with
-  | nil => intro st hp hs; exact ⟨hp, hs⟩
+  | nil => intro w hw; exact hw
   | cons h t ih =>
-    intro st hp hs
-    unfold refreshLoopV
-    have := stepV_preserves' env r0 reported P hadd hrm st h (hl h List.mem_cons_self) hp hs
-    generalize refreshStepV env st h = res at this
-    obtain ⟨st', res'⟩ := res
-    dsimp only at this ⊢
-    split
-    · exact ih (fun x hx => hl x (List.mem_cons_of_mem _ hx)) st' this.1 this.2
-    · exact this
-
-theorem removeAllV_preserves' (env : Env) (r0 : Ring.Ring) (P : View → Prop)
-    (hrm : ∀ v h, P v → h ∈ r0.allHosts → P (v.removeHost env h))
-    (prev : List (Nat × RHost)) : ∀ v, P v → (∀ e ∈ prev, e ∈ r0.byId) → P (removeAllV env v prev) := by
-  induction prev with
-  | nil => intro v hp _; exact hp
-  | cons p t ih =>
-    intro v hp hs
-    obtain ⟨k, x⟩ := p
-    exact ih _ (hrm v x hp (List.mem_map.mpr ⟨(k, x), hs _ List.mem_cons_self, rfl⟩)) (fun e he => hs e (List.mem_cons_of_mem _ he))
-
-theorem refreshV_preserves' (env : Env) (v : View) (reported : List RHost) (P : View → Prop)
-    (hadd : ∀ w h, P w → lookup w.ring.byId h.id = none → h ∈ reported → env.filter h = false → P (View.addNew env w h))
-    (hrm : ∀ w h, P w → h ∈ v.ring.allHosts → P (w.removeHost env h)) (hp : P v) :
-    P (v.refresh env reported).1 := by
-  have := loopV_preserves' env v.ring reported P hadd hrm reported (fun _ h => h) ⟨v, v.ring.byId⟩ hp (fun _ h => h)
-  unfold View.refresh
-  generalize refreshLoopV env reported ⟨v, v.ring.byId⟩ = res at this
-  obtain ⟨st', res'⟩ := res
-  dsimp only at this
-  cases res' with
-  | ok => exact removeAllV_preserves' env v.ring P hrm st'.prev st'.v this.1 this.2
-  | errCannotFind => exact this.1
-  | errAlreadyExists => exact this.1
-
-/-- the connect address of `s` is not the connect address of a host of the ring `r0`, nor of another accepted reported host -/
-def FreshConn (env : Env) (r0 : Ring.Ring) (reported : List RHost) (s : RHost) : Prop :=
-  (∀ y ∈ r0.allHosts, cAddr y ≠ cAddr s) ∧ (∀ y ∈ reported, env.filter y = false → y ≠ s → cAddr y ≠ cAddr s)
-
-instance (env : Env) (r0 : Ring.Ring) (reported : List RHost) (s : RHost) : Decidable (FreshConn env r0 reported s) := by
-  unfold FreshConn; infer_instance
-
-structure NewPol (env : Env) (r0 : Ring.Ring) (reported : List RHost) (w : View) : Prop where
-  prov : ∀ y, y ∈ w.pol.loc ∨ y ∈ w.pol.rem → y ∈ r0.allHosts ∨ (y ∈ reported ∧ env.filter y = false)
-  inpol : ∀ s, lookup w.ring.byId s.id = some s → s.id ∉ keys r0.byId → FreshConn env r0 reported s →
-    s ∈ w.pol.loc ∨ s ∈ w.pol.rem
-
-theorem mem_cowAdd_self (l : List RHost) (h : RHost) (hl : ∀ y ∈ l, cAddr y = cAddr h → y = h) : h ∈ cowAdd l h := by
-  rw [mem_cowAdd]
-  by_cases hc : ∀ y ∈ l, cAddr y ≠ cAddr h
-  · exact Or.inr ⟨rfl, hc⟩
-  · have : ∃ y, y ∈ l ∧ cAddr y = cAddr h := by
-      apply Classical.byContradiction
-      intro hne
-      apply hc
-      intro y hy hcy
-      exact hne ⟨y, hy, hcy⟩
-    obtain ⟨y, hy, hcy⟩ := this
-    rw [← hl y hy hcy]
-    exact Or.inl hy
-
-theorem newPol_refresh (env : Env) (v : View) (reported : List RHost)
-    (hprov : ∀ y, y ∈ v.pol.loc ∨ y ∈ v.pol.rem → y ∈ v.ring.allHosts) :
-    NewPol env v.ring reported (v.refresh env reported).1 := by
-  apply refreshV_preserves' env v reported (NewPol env v.ring reported)
-  · -- a new accepted host is added
-    intro w h hp hn hh hf
-    have hlk := lookup_add_new w.ring h hn
-    refine ⟨?_, ?_⟩
-    · intro y hy
-      have hy' : y ∈ (w.pol.add env h).loc ∨ y ∈ (w.pol.add env h).rem := hy
-      rw [add_loc, add_rem] at hy'
-      rcases hy' with h1 | h1
-      · split at h1
-        · rcases mem_cowAdd_sub _ _ _ h1 with h2 | h2
-          · exact hp.prov y (Or.inl h2)
-          · rw [h2]; exact Or.inr ⟨hh, hf⟩
-        · exact hp.prov y (Or.inl h1)
-      · split at h1
-        · exact hp.prov y (Or.inr h1)
-        · rcases mem_cowAdd_sub _ _ _ h1 with h2 | h2
-          · exact hp.prov y (Or.inr h2)
-          · rw [h2]; exact Or.inr ⟨hh, hf⟩
-    · intro s hs hnew hfresh
-      have hs' : lookup (w.ring.addIfMissing h).1.byId s.id = some s := hs
-      rw [hlk] at hs'
-      show s ∈ (w.pol.add env h).loc ∨ s ∈ (w.pol.add env h).rem
-      rw [add_loc, add_rem]
-      by_cases hid : s.id = h.id
-      · simp only [hid, ↓reduceIte, Option.some.injEq] at hs'
-        subst hs'
-        have key : ∀ (l : List RHost), (∀ y ∈ l, y ∈ w.pol.loc ∨ y ∈ w.pol.rem) → h ∈ cowAdd l h := by
-          intro l hl
-          apply mem_cowAdd_self
+    intro w hw
+    simp only [List.foldl_cons]
+    apply ih (fun x hx => hl x (List.mem_cons_of_mem _ hx))
+    cases hlk : lookup w.ring.byId h.id with
+    | some e => rw [addStepV_of_some env w h e hlk]; exact hw
+    | none =>
+      rw [addStepV_of_none env w h hlk]
+      have hacc := hl h List.mem_cons_self
+      have hlook := lookup_add_new w.ring h hlk
+      refine ⟨agree_addNew env w h hw.agree hlk, ?_, ?_⟩
+      · intro e he
+        have he' : e ∈ (w.ring.addIfMissing h).1.byId := he
+        rcases (mem_add_new w.ring h hlk e).mp he' with rfl | he'
+        · exact ⟨h, hacc, rfl, rfl⟩
+        · exact hw.matched e he'
+      · intro s hs hnew hown
+        have hs' : lookup (w.ring.addIfMissing h).1.byId s.id = some s := hs
+        rw [hlook] at hs'
+        show InPolicy env (w.pol.add env h) s
+        by_cases hid : s.id = h.id
+        · simp only [hid, ↓reduceIte, Option.some.injEq] at hs'
+          subst hs'
+          apply inPolicy_add_self
           intro y hy hcy
-          rcases hp.prov y (hl y hy) with h1 | ⟨h1, h2⟩
-          · exact absurd hcy (hfresh.1 y h1)
-          · apply Classical.byContradiction
-            intro hne
-            exact hfresh.2 y h1 h2 hne hcy
-        cases hloc : env.isLocal h with
-        | true => simp only [↓reduceIte]; exact Or.inl (key _ (fun y hy => Or.inl hy))
-        | false => simp only [Bool.false_eq_true, ↓reduceIte]; exact Or.inr (key _ (fun y hy => Or.inr hy))
-      · simp only [hid, ↓reduceIte] at hs'
-        rcases hp.inpol s hs' hnew hfresh with h1 | h1
-        · left; split
-          · exact (mem_cowAdd _ _ _).mpr (Or.inl h1)
-          · exact h1
-        · right; split
-          · exact h1
-          · exact (mem_cowAdd _ _ _).mpr (Or.inl h1)
-  · -- an object of the prior ring is removed
-    intro w h hp hh
-    refine ⟨?_, ?_⟩
-    · intro y hy
-      have hy' : y ∈ (w.pol.remove env h).loc ∨ y ∈ (w.pol.remove env h).rem := hy
-      rw [remove_loc, remove_rem] at hy'
-      rcases hy' with h1 | h1
-      · split at h1
-        · exact hp.prov y (Or.inl ((mem_cowRemove _ _ _).mp h1).1)
-        · exact hp.prov y (Or.inl h1)
-      · split at h1
-        · exact hp.prov y (Or.inr h1)
-        · exact hp.prov y (Or.inr ((mem_cowRemove _ _ _).mp h1).1)
-    · intro s hs hnew hfresh
-      have hs' : lookup (w.ring.remove h.id).1.byId s.id = some s := hs
-      rw [lookup_remove] at hs'
-      have hid : s.id ≠ h.id := fun e => by simp [e] at hs'
-      simp only [hid, ↓reduceIte] at hs'
-      have hne : cAddr s ≠ cAddr h := fun e => hfresh.1 h hh e.symm
-      show s ∈ (w.pol.remove env h).loc ∨ s ∈ (w.pol.remove env h).rem
-      rw [remove_loc, remove_rem]
-      rcases hp.inpol s hs' hnew hfresh with h1 | h1
-      · left; split
-        · exact (mem_cowRemove _ _ _).mpr ⟨h1, hne⟩
-        · exact h1
-      · right; split
-        · exact h1
-        · exact (mem_cowRemove _ _ _).mpr ⟨h1, hne⟩
-  · -- initially
-    refine ⟨fun y hy => Or.inl (hprov y hy), ?_⟩
-    intro s hs hnew _
-    exact absurd (lookup_mem_keys _ _ _ hs) hnew
+          have hycur := hw.agree.pol y hy
+          obtain ⟨h', hh', hid', hc'⟩ := hw.matched (y.id, y) (lookup_some_mem _ _ _ hycur)
+          by_cases e : h' = h
+          · rw [e] at hid'
+            have hid2 : h.id = y.id := hid'
+            rw [← hid2, hlk] at hycur
+            cases hycur
+          · exact hown h' hh' e (hc'.trans hcy)
+        · simp only [hid, ↓reduceIte] at hs'
+          exact inPolicy_add_keep env w.pol h s (hw.inpol s hs' hnew hown)
+
+theorem cAddr_eq (a b : RHost) (h1 : a.caddr = b.caddr) (h2 : a.addr = b.addr) : cAddr a = cAddr b := by
+  unfold cAddr; rw [h1, h2]
+
+/-- after a refresh of a reachable view, every object of the ring that was not the ring's object of its host
+id before (a new node, or the new object of a node whose address changed) and whose connect address no
+other accepted reported host has, is in the policy's lists -/
+theorem newPol_refresh (env : Env) (v : View) (ha : Agree env v) (reported : List RHost) (s : RHost)
+    (hs : lookup (v.refresh env reported).ring.byId s.id = some s) (hnew : lookup v.ring.byId s.id ≠ some s)
+    (hown : OwnConn env reported s) : InPolicy env (v.refresh env reported).pol s := by
+  have hr1 : (removeAllV env v (goneV env v reported)).ring = removeAll v.ring (goneOf v.ring env.filter reported) :=
+    removeAllV_ring env _ v
+  have h0 : NewPol env reported (removeAllV env v (goneV env v reported)) (removeAllV env v (goneV env v reported)) := by
+    refine ⟨agree_pass1 env v ha reported, ?_, ?_⟩
+    · intro e he
+      rw [hr1] at he
+      have hm := (mem_pass1 v.ring ha.sinv.wf ha.sinv.knodup env.filter reported e).mp he
+      have hst := hm.2
+      unfold stays at hst
+      cases hl : lookup (reportedMap env.filter reported) e.1 with
+      | none => rw [hl] at hst; cases hst
+      | some x =>
+        rw [hl] at hst
+        simp only [Bool.and_eq_true, beq_iff_eq] at hst
+        have hmem := lookup_some_mem _ _ _ hl
+        unfold reportedMap at hmem
+        obtain ⟨y, hy, hyx⟩ := List.mem_map.mp hmem
+        have h1 : y.id = e.1 := congrArg Prod.fst hyx
+        have h2 : y = x := congrArg Prod.snd hyx
+        exact ⟨y, hy, h1, by rw [h2]; exact cAddr_eq x e.2 hst.1 hst.2⟩
+    · intro s hs hn _
+      rw [hs] at hn; cases hn
+  have hfin := addAllV_newPol env reported _ (accepted env reported) (fun _ h => h) _ h0
+  rw [← refreshV_eq] at hfin
+  apply hfin.inpol s hs ?_ hown
+  -- `s` was added by pass 2: it is not in the ring after pass 1
+  cases hp : lookup (removeAllV env v (goneV env v reported)).ring.byId s.id with
+  | none => rfl
+  | some x =>
+    exfalso
+    have hfinal : lookup (v.refresh env reported).ring.byId s.id = some x := by
+      rw [refreshV_eq, foldl_addStepV_ring, lookup_addAll, hp]
+    rw [hs] at hfinal
+    have hx : s = x := Option.some.inj hfinal
+    subst hx
+    rw [hr1] at hp
+    have hm := (mem_pass1 v.ring ha.sinv.wf ha.sinv.knodup env.filter reported (s.id, s)).mp (lookup_some_mem _ _ _ hp)
+    exact hnew (lookup_of_mem_nodup _ ha.sinv.knodup (s.id, s) hm.1)
 
 end C16
